@@ -30,6 +30,7 @@ type Prog struct {
 	allNamed  []types.Type
 	byKey     map[string]*ssa.Function
 	boxedPtr  []types.Type
+	curProp   string
 }
 
 func mathFloat64bits(f float64) uint64 { return math.Float64bits(f) }
